@@ -937,6 +937,20 @@ public:
         sandbox_callback_interceptor<detail::rlbox_remove_wrapper_t<T_Ret>,
                                      detail::rlbox_remove_wrapper_t<T_Args>...>;
 
+      // If the sandbox implementation refuses the registration (e.g. it has no
+      // free callback slot), make sure the key does not stay behind
+      bool registered = false;
+      auto on_refused = detail::make_scope_exit([&] {
+        if (!registered) {
+          std::lock_guard<std::mutex> lock(callback_lock);
+          auto el_ref =
+            std::find(callback_keys.begin(), callback_keys.end(), unique_key);
+          if (el_ref != callback_keys.end()) {
+            callback_keys.erase(el_ref);
+          }
+        }
+      });
+
       auto callback_trampoline = this->template impl_register_callback<
         detail::convert_to_sandbox_equivalent_t<
           detail::rlbox_remove_wrapper_t<T_Ret>,
@@ -944,6 +958,7 @@ public:
         detail::convert_to_sandbox_equivalent_t<
           detail::rlbox_remove_wrapper_t<T_Args>,
           T_Sbx>...>(unique_key, reinterpret_cast<void*>(callback_interceptor));
+      registered = true;
 
       auto tainted_func_ptr = reinterpret_cast<
         detail::rlbox_tainted_opaque_to_tainted_t<T_Ret, T_Sbx> (*)(
